@@ -12,6 +12,8 @@ THEOREMS = [
     "Vinegar.C01.reader_independent_of_read_splitting",
     "Vinegar.C01.c01Check_runTransfer",
     "Vinegar.C01.complete_unless_aborted",
+    "Vinegar.C01.serverErrorsJustified_iff",
+    "Vinegar.C01.serverErrorsJustified_runTransfer",
     "Vinegar.C01.idealPackets_numbers",
     "Vinegar.C01.idealPackets_wraps",
     "Vinegar.C01.idealPackets_stops",
